@@ -50,12 +50,16 @@ func (c *Ctx) hijackWrappers() {
 		info := fi.Pkg.TypesInfo
 		var site *ast.CallExpr
 		cnt := 0
+		reach := c.G.ReachDirect(fi.Obj)
 		for _, s := range c.G.Sites {
 			if s.Fn == fi.Obj && s.Resource == "statefulsets.pingcap" {
 				cnt++
 				if s.Verb == m {
 					site = s.Call
 				}
+			} else if s.Fn != fi.Obj && reach[s.Fn] && s.Resource == "statefulsets.pingcap" && s.Fn.Pkg() != nil && s.Fn.Pkg().Path() == load.HelperPkg {
+				// (a call of the Advanced client made on the method's behalf by a helper counts as the method's own)
+				cnt++
 			}
 		}
 		name := "hijackStatefulSet." + m
